@@ -215,6 +215,7 @@ class Assembled:
         self.lines = []
         self.map = []  # (start, end, unit, kind, label, props)  1-based inclusive
         self.units = {}  # unit id -> dict(fnname, range)
+        self.canary_ranges = []
 
     def add(self, text, unit=None, kind=None, label=None, props=None):
         start = len(self.lines) + 1
@@ -368,6 +369,8 @@ def splice_fn(a, item, uc, group_props, canary=False, drop_hints=()):
         a.add(t, uid if kind else None, kind, label, props)
     uend = len(a.lines)
     a.map.append((ustart, uend, uid, "unit", "safety", unit_safety))
+    if canary:
+        a.canary_ranges.append((ustart, uend))
     qual = (item.get("impl_of") + "::" if item.get("impl_of") and not item.get("free_fn") else "") + fnname + ("__canary" if canary else "")
     a.units[uid + ("#canary" if canary else "")] = {"fn": qual, "range": (ustart, uend), "props": sorted(all_props), "safety": unit_safety}
 
@@ -545,6 +548,8 @@ def analyse(a, res):
             undecided.append("verus front-end error: %s (line %s)" % (d.get("message"), pline))
             continue
         if k == "resource":
+            if pline is not None and any(lo <= pline <= hi for lo, hi in a.canary_ranges):
+                continue  # a canary that runs out of resources has not been proved: that is a failed canary
             undecided.append("resource limit: %s (line %s)" % (d.get("message"), pline))
             continue
         # semantic failure: find owner unit (primary span) and named clause (any span)
